@@ -20,6 +20,7 @@ fn self_peer(sim: &Sim<Packet>) -> bool {
 
 fn mesh_case(n: usize, nat: &[u64], dial: &[(u64, u64)], stream: u64, horizon: i64) -> Value {
     let mut sim: Sim<Packet> = Sim::new(stream);
+    sim.trace_sample(stream, 12, 80_000);
     let mut cfg = base_config(Mode::Router);
     let plain = stream % 5 == 4;
     if plain {
@@ -68,6 +69,7 @@ fn mesh_case(n: usize, nat: &[u64], dial: &[(u64, u64)], stream: u64, horizon: i
 /// list that address under its identity, and the node must adopt it as its own and never dial it.
 fn selfdial_case(variant: u64, in_mesh: bool, stream: u64) -> Value {
     let mut sim: Sim<Packet> = Sim::new(stream);
+    sim.trace_sample(stream, 1, 80_000);
     let cfg = base_config(Mode::Router);
     let a = sim.add_node(false, &cfg);
     let alias = addr_of(61);
@@ -196,5 +198,6 @@ pub fn run(cfg_path: &str, tier: &str, out_path: &str) -> Value {
         t.ev(r.clone());
     }
     let events = t.finish();
-    json!({"runs": jobs.len(), "steps": jobs.len(), "events": events})
+    let cloud = write_cloud_blocks(&format!("{}.cloud", out_path));
+    json!({"runs": jobs.len(), "steps": jobs.len(), "events": events, "cloud_events": cloud})
 }
